@@ -247,7 +247,7 @@ pub fn sets(ctx: &Ctx) -> Vec<CaseSet> {
     let tb1 = tb.clone();
     out.push(CaseSet::new(
         "layouts",
-        ctx.size(12_000, 600_000),
+        ctx.size(48_000, 3_000_000),
         Box::new(move |rep, rng, _| {
             let elisp = rng.bool();
             let mut cfg = GenCfg::default_dialect();
@@ -294,7 +294,7 @@ pub fn sets(ctx: &Ctx) -> Vec<CaseSet> {
     let cfg = Arc::new(cfg);
     out.push(CaseSet::new(
         "soup-that-parses",
-        ctx.size(25_000, 1_200_000),
+        ctx.size(100_000, 6_000_000),
         Box::new(move |rep, rng, _| {
             let (input, q, tag) = crate::props::c06::gen_input(rng, &tb2, &cfg, 400);
             let q = if rng.chance(1, 2) { Q::from_index(rng.below(N_Q)) } else { q };
